@@ -38,7 +38,7 @@ def table(letters):
 
 p = os.path.join(here, "DESIGN.md")
 s = open(p).read()
-for name, letters in (("ROUND4", "gh"), ("ROUND5", "ij"), ("ROUND6", "kl")):
+for name, letters in (("ROUND4", "gh"), ("ROUND5", "ij"), ("ROUND6", "kl"), ("ROUND7", "mn")):
     begin, end = "<!-- %s_TABLE -->" % name, "<!-- /%s_TABLE -->" % name
     block = begin + "\n" + table(letters) + "\n" + end
     if name + "_TABLE\n" in s and begin not in s:
@@ -46,4 +46,4 @@ for name, letters in (("ROUND4", "gh"), ("ROUND5", "ij"), ("ROUND6", "kl")):
     elif begin in s:
         s = s[:s.index(begin)] + block + s[s.index(end) + len(end):]
 open(p, "w").write(s)
-print("tables written:", {k: len([d for d in matrix if d[-1] in l]) for k, l in (("r4", "gh"), ("r5", "ij"), ("r6", "kl"))})
+print("tables written:", {k: len([d for d in matrix if d[-1] in l]) for k, l in (("r4", "gh"), ("r5", "ij"), ("r6", "kl"), ("r7", "mn"))})
